@@ -333,5 +333,98 @@ template <class F> Segment c13Segment(long nQ, long nT) {
     return s;
 }
 
+// C13 on target/source trees: both halves are edited in place, rebuilt together and compared with trees freshly built from the edited arrays
+template <class F> Segment c13TsmSegment(long nQ, long nT) {
+    constexpr int D = F::D;
+    using Real = typename F::Real; using Data = typename F::Data;
+    using TT = typename F::TreeTsm;
+    Segment s; s.name = "c13-tsm-" + F::name();
+    s.count = [=](bool th) { return th ? nT : nQ; };
+    s.run = [=](long kk, uint64_t seed, bool, Result& res) {
+        vh::Rng r(vh::mix(seed ^ 0xC13D, uint64_t(kk)));
+        auto in = randomInput<F>(r, vh::mix(seed, kk), 150, false);
+        auto in2 = secondSet<F>(r, in, 150);
+        const long Ns = long(in.parts.size()), Nt = long(in2.parts.size());
+        const int cycles = int(r.range(1, 3));
+        res.desc = inputDesc<F>(in) + " | tsm targets N=" + vh::str(Nt) + " dist=" + in2.dist + " cycles=" + vh::str(cycles);
+        const typename F::Cfg cfg(in.geo.H, in.geo.width, in.geo.center);
+        TT tt(cfg, in.parts, in2.parts, in.blockSize, in.ogp);
+        auto curS = in.parts; auto curT = in2.parts;
+        std::vector<std::array<typename F::Rhs, (F::NRHS > 0 ? F::NRHS : 1)>> rhsNow(Nt);
+        long moved = 0;
+        for (int cyc = 0; cyc < cycles; ++cyc) {
+            tt.applyToAllLeavesTarget([&](auto& hdr, const long* idx, auto&&, auto&& rhs) {
+                if constexpr (F::NRHS > 0) for (long p = 0; p < hdr.nbParticles; ++p) for (int v = 0; v < F::NRHS; ++v) { rhs[v][p] = rhsPattern<F>(idx[p], v, cyc); rhsNow[idx[p]][v] = rhs[v][p]; }
+            });
+            tt.applyToAllCellsSource([&](long, auto&, auto& m, auto&) { if (m) m->get()[0] = 7; });
+            tt.applyToAllCellsTarget([&](long, auto&, auto&, auto& l) { if (l) l->get()[0] = 9; });
+            auto mover = [&](auto& current) {
+                const int style = int(r.below(4));
+                const double frac = style == 0 ? 1.0 : 0.1 + 0.8 * r.unit();
+                tbx::DistState st; for (auto& x : st.c) x = r.unit(); for (auto& x : st.leaf) x = long(r.below(1u << 20));
+                const int dist = style == 1 ? int(tbx::D_ONELEAF) : style == 2 ? int(tbx::D_BOXFACES) : style == 3 ? int(tbx::D_FACES) : int(tbx::D_UNIFORM);
+                auto prev = std::make_shared<std::vector<std::array<Real, D>>>();
+                return [&, frac, dist, st, prev](auto& hdr, const long* idx, auto&& data, auto&&) mutable {
+                    for (long p = 0; p < hdr.nbParticles; ++p) {
+                        if (!r.coin(frac)) continue;
+                        for (int tries = 0; tries < 50; ++tries) {
+                            auto pr = tbx::candidate<Real, D>(r, cfg, tries < 40 ? dist : int(tbx::D_UNIFORM), *prev, st);
+                            std::array<Data, D> pd = toData<Data>(r, pr);
+                            if (!tbx::validPos<Real, D>(cfg, pd)) continue;
+                            for (int d = 0; d < D; ++d) { data[d][p] = pd[d]; current[idx[p]][d] = pd[d]; }
+                            ++moved; break;
+                        }
+                    }
+                };
+            };
+            if (r.coin(0.8)) tt.applyToAllLeavesSource(mover(curS));
+            if (r.coin(0.8)) tt.applyToAllLeavesTarget(mover(curT));
+            tt.rebuild();
+            TT fresh(cfg, curS, curT, tt.getNbElementsPerGroupSource(), in.ogp);
+            SrcView<TT> sv{tt}, fsv{fresh}; TgtView<TT> tv{tt}, ftv{fresh};
+            Input<SrcFlavour<F>> cS; cS.geo = in.geo; cS.parts = curS;
+            Input<F> cT = in2; cT.parts = curT; cT.exactLeaf.clear();
+            checkConstruction<SrcFlavour<F>>(sv, cS, res, "c13-tsm-source", false);
+            checkConstruction<F>(tv, cT, res, "c13-tsm-target", false);
+            checkStructure<SrcFlavour<F>>(sv, in.geo.H, tt.getNbElementsPerGroupSource(), in.ogp, res, "c13-tsm-source");
+            checkStructure<F>(tv, in.geo.H, tt.getNbElementsPerGroupTarget(), in.ogp, res, "c13-tsm-target");
+            auto sameAsFresh = [&](auto& a, auto& b, long N, const std::string& tag) {
+                bool ok1 = true, ok2 = true;
+                const auto la = tbx::leafOfParticle<D>(a, N, &ok1), lb = tbx::leafOfParticle<D>(b, N, &ok2);
+                if (ok1 && ok2) for (long i = 0; i < N; ++i) if (la[i] != lb[i]) { res.fail(tag + ":leaf-differs-from-fresh-tree", "particle " + vh::str(i) + " rebuilt " + vh::astr(la[i]) + " fresh " + vh::astr(lb[i])); break; }
+                for (long L = 0; L < in.geo.H; ++L) {
+                    const auto& ga = a.getCellGroupsAtLevel(L); const auto& gb = b.getCellGroupsAtLevel(L);
+                    bool same = ga.size() == gb.size();
+                    for (size_t g = 0; same && g < ga.size(); ++g) { same = ga[g].getNbCells() == gb[g].getNbCells(); for (long i = 0; same && i < ga[g].getNbCells(); ++i) same = ga[g].getCellSpacialIndex(i) == gb[g].getCellSpacialIndex(i); }
+                    if (!same) { res.fail(tag + ":groups-differ-from-fresh-tree", "level " + vh::str(L)); break; }
+                }
+            };
+            sameAsFresh(sv, fsv, Ns, "c13-tsm-source"); sameAsFresh(tv, ftv, Nt, "c13-tsm-target");
+            tt.applyToAllLeavesTarget([&](auto& hdr, const long* idx, auto&&, auto&& rhs) {
+                if constexpr (F::NRHS > 0) for (long p = 0; p < hdr.nbParticles; ++p) for (int v = 0; v < F::NRHS; ++v)
+                    if (std::memcmp(&rhs[v][p], &rhsNow[idx[p]][v], sizeof(typename F::Rhs)) != 0) { res.fail("c13-tsm-target:rhs-not-preserved", "particle " + vh::str(idx[p]) + " value " + vh::str(v)); return; }
+            });
+            tt.applyToAllCellsSource([&](long L, auto& hdr, auto& m, auto&) { if (m && !tbx::allZero(m->get())) res.fail("c13-tsm-source:expansions-not-reset", "level " + vh::str(L) + " cell " + vh::astr(hdr.boxCoord)); });
+            tt.applyToAllCellsTarget([&](long L, auto& hdr, auto&, auto& l) { if (l && !tbx::allZero(l->get())) res.fail("c13-tsm-target:expansions-not-reset", "level " + vh::str(L) + " cell " + vh::astr(hdr.boxCoord)); });
+            checkExports<SrcFlavour<F>>(sv, curS, res, "c17-tsm-source-after-rebuild");
+            checkExports<F>(tv, curT, res, "c17-tsm-target-after-rebuild");
+            if constexpr (F::NRHS > 0 && std::is_arithmetic<typename F::Rhs>::value) {
+                TbfAlgorithmTsm<Real, TbfTestKernel<Real, typename F::Space>, typename F::Space> algo(cfg, F::Space::IsPeriodic ? 1 : 2);
+                algo.execute(tt);
+                const long per = F::Space::IsPeriodic ? (Ns * long(vm::box<D>(1).size())) : Ns;
+                tt.applyToAllLeavesTarget([&](auto& hdr, const long* idx, auto&&, auto&& rhs) {
+                    for (long p = 0; p < hdr.nbParticles; ++p) if (rhs[0][p] != typename F::Rhs(rhsNow[idx[p]][0] + typename F::Rhs(per))) { res.fail("c13-tsm:execute-after-rebuild", "target " + vh::str(idx[p]) + " got " + vh::str(rhs[0][p]) + " expected " + vh::str(rhsNow[idx[p]][0] + typename F::Rhs(per))); return; }
+                });
+                res.ev("executions-after-rebuild");
+            }
+            res.ev("rebuild-cycles"); res.ev("tsm-rebuild-cycles");
+        }
+        res.ev("particles-moved", moved);
+        res.sig = "tsm:" + F::name() + ",H" + vh::str(in.geo.H) + ",Ns" + vh::str(Ns) + ",Nt" + vh::str(Nt) + ",bs" + vh::str(in.blockSize) + ",cyc" + vh::str(cycles) + "," + vh::str(vh::mix(seed, kk) % 100000);
+        res.nontrivial = moved > 0;
+    };
+    return s;
+}
+
 } // namespace tr
 #endif
